@@ -1,7 +1,9 @@
 package main
 
 import (
+	"encoding/json"
 	"fmt"
+	"os"
 
 	"github.com/google/pprof/internal/zzverif/vdrv"
 	"github.com/google/pprof/internal/zzverif/vlib"
@@ -9,12 +11,21 @@ import (
 )
 
 func main() {
-	f := vlib.AFn{Name: "f", Sys: "f", File: "a.c"}
-	m := vlib.AMap{Build: "B01", File: "bin", Start: 16, Size: 8}
-	p := vlib.NewConc(0).Profile(vlib.AProf{ST: []vlib.AVT{{T: "s1", U: "count"}}, Samples: []vlib.ASample{{Locs: []vlib.ALoc{{Map: m, Rel: 3, Lines: []vlib.ALine{{Fn: f, Line: 10}}}}, Vals: []int64{1}}}})
-	for _, lines := range [][]string{{"lines", "top >o"}, {"lines=true", "top >o"}, {"cum", "top >o"}, {"granularity=lines", "top >o"}, {"compact_labels", "o"}} {
-		res := vdrv.Run(vdrv.Opts{Args: []string{"-functions", "-flat", "src"}, Lines: lines, Fetch: func(string) (*profile.Profile, error) { return p.Copy(), nil }})
-		fmt.Println(lines, "err:", res.Err, "uierr:", res.UIErr)
+	b, _ := os.ReadFile(os.Args[1])
+	var r struct {
+		Case struct {
+			Samples []vlib.ASample `json:"samples"`
+			Opts    []string       `json:"opts"`
+			Form    string         `json:"form"`
+		} `json:"case"`
+	}
+	json.Unmarshal(b, &r)
+	p := vlib.NewConc(0).Profile(vlib.AProf{ST: []vlib.AVT{{T: "s1", U: "count"}, {T: "s2", U: "count"}}, Samples: r.Case.Samples})
+	for _, opts := range [][]string{r.Case.Opts, {"-cum", "-nodecount=0", "-nodefraction=0", "-edgefraction=0", "-functions", "-sample_index=s2"}} {
+		args := append([]string{"-" + r.Case.Form}, opts...)
+		args = append(args, "-output=o", "src")
+		res := vdrv.Run(vdrv.Opts{Args: args, Fetch: func(string) (*profile.Profile, error) { return p.Copy(), nil }})
+		fmt.Println(args, res.Err)
 		fmt.Println(res.File("o"))
 	}
 }
